@@ -184,6 +184,7 @@ def correspondence(ctx: Ctx):
     yield from float_glue_cases(ctx)
     yield from history_cases(ctx)
     yield from poisson_crop_cases(ctx)
+    yield from form_cases(ctx)
 
 
 # --------------------------------------------------------------------------------------------------
@@ -246,6 +247,39 @@ def float_glue_cases(ctx: Ctx):
         yield {"line": line("num_low_exact", [gid(name), cols], [cn, cd, an, ad, 1 if isinstance(cf, int) else 0]), "impl": (lambda a=a: a),
                "nontrivial": res.get("ok", False),
                "bucket": f"kernel/num_low_exact/{name}" + ("/tie" if tie else "") + ("" if res.get("ok") else "/rejected")}
+
+
+def form_cases(ctx: Ctx):
+    """the width of the ACS block a line generator returns when its numbers arrive as numpy / 0-d / torch scalars,
+    float-valued counts, in tuples / arrays — against the model's VALUE-based `numLow` (forms the code rejects with an
+    exception are counted, not compared)"""
+    rng = ctx.rng
+    classes = [c for c in FORM_CLASSES if G.FAMILY[BASES.get(c, c)] in ("line", "ktline")]
+    for cls in classes:
+        for _ in range(ctx.budget(1, 5)):
+            spec = forms_spec(rng, cls)
+            if spec is None:
+                continue
+            spec = dict(spec, masks=False)
+            res = hist_worker(BASES.get(cls, cls)).run(spec, 90.0)
+            forms = res.get("forms") or {}
+            cols = spec["shape"][-2]
+            twin = BASES.get(cls, cls)
+            for key, r in sorted(forms.items()):
+                arg, _, form = key.partition("=")
+                if not r["acs"].get("ok") or not r["acs"].get("rows"):
+                    ctx.hist[f"kernel/num_low_value/{key or 'canonical'}/rejected"] = ctx.hist.get(f"kernel/num_low_value/{key}/rejected", 0) + 1
+                    continue
+                idx = np_choice(twin, spec["seed"], len(spec["acc"]))      # the pair this seed selects (numpy alone)
+                cf, acc = spec["cf"][idx], spec["acc"][idx]
+                # the value the form carries (float32 forms carry the float32 value)
+                if arg == "cf" and form in ("np.float32", "torch32"):
+                    cf = float(np.float32(cf))
+                if arg == "acc" and form in ("np.float32", "torch32"):
+                    acc = float(np.float32(acc))
+                a = "ok " + str(bin(r["acs"]["rows"][0]).count("1"))
+                yield {"line": line("num_low_value", [gid(twin), cols], list(ratio(cf)) + list(ratio(acc))), "impl": (lambda a=a: a),
+                       "key": (cls, key, cols, str(cf), str(acc)), "nontrivial": True, "bucket": f"kernel/num_low_value/{key or 'canonical'}"}
 
 
 VDP_CROP_WITNESS = {"gen": "VariableDensityPoisson", "mode": "static", "shape": [24, 8, 2], "acc": 2, "cf": 0.5, "seed": 1,
@@ -703,6 +737,116 @@ def site_oracle(ctx: Ctx, seen: set, deep: bool):
                     yield Violation(key, what, {"op": "acs-site", "spec": dict(spec, filenames=fnames[:i + 1]), "sample": i, "key": key})
 
 
+# --------------------------------------------------------------------------------------------------
+# argument-form ladder: the ACS depends on the VALUES configured, not on the Python types that carry them
+BASES = {"Random": "FastMRIRandom", "Equispaced": "FastMRIEquispaced", "Magic": "FastMRIMagic"}     # unguarded base classes
+FORM_CLASSES = list(G.GENERATORS) + list(BASES)
+
+
+def _far_from_tie(x: float, margin: float = 0.02) -> bool:
+    return abs((x % 1.0) - 0.5) > margin
+
+
+def forms_spec(rng, cls: str):
+    """canonical configuration (Python ints / floats, lists, enum, tuple) whose ACS is insensitive to float32 rounding of
+    the configured numbers: products / square roots stay clear of rounding ties"""
+    twin = BASES.get(cls, cls)
+    mode = rng.choice(G.modes_of(twin))
+    small = twin in ("VariableDensityPoisson", "KtRadial", "Gaussian2D", "Radial", "Spiral")
+    for _ in range(60):
+        shape = G.sample_shape(rng, twin, mode, small=small)
+        rows, cols = shape[-3], shape[-2]
+        count = cls in BASES and rng.random() < 0.6 or G.takes_count(twin)
+        ref = ("Cartesian" + twin[len("FastMRI"):]) if (count and twin.startswith("FastMRI")) else twin
+        if rng.random() < 0.5:        # two pairs: containers and element forms must keep the pairing
+            cfg = multi_config(rng, ref, [shape], 2)
+            if cfg is None:
+                continue
+            accs, cfs = cfg
+        else:
+            pr = G.sample_params(rng, ref, rows, cols, True)
+            if pr is None:
+                continue
+            accs, cfs = [pr[0]], [pr[1]]
+        clear = True
+        for acc, cf in zip(accs, cfs):
+            if G.FAMILY[twin] in ("line", "ktline"):
+                if not count and not all(_far_from_tie(cols * float(v)) for v in (cf, np.float32(cf))):
+                    clear = False
+                if not _far_from_tie(cols / acc):
+                    clear = False
+            else:
+                r = [float(np.sqrt(rows * cols * float(v) / np.pi)) for v in (cf, np.float32(cf))]
+                if any(abs(x - round(x)) < 0.02 for x in r):
+                    clear = False
+        if not clear:
+            continue
+        spec = {"kind": "forms", "gen": cls, "mode": mode, "acc": accs, "cf": cfs, "shape": shape,
+                "seed": rng.choice([{"k": "int", "v": rng.randrange(2 ** 31)}, {"k": "int", "v": 0}, {"k": "fname", "v": "file_0001.h5"}]),
+                "masks": twin != "VariableDensityPoisson"}
+        if twin == "VariableDensityPoisson":
+            spec["extra"] = {"max_attempts": 5}
+        return spec
+    return None
+
+
+def check_forms(spec: dict, res: dict):
+    """yields (key, what, form): a form that is accepted must give the ACS of the canonical form, inside its own mask"""
+    name = spec["gen"]
+    forms = (res or {}).get("forms") or {}
+    can = forms.get("canonical")
+    if not can:
+        return
+    if not can["acs"].get("ok"):
+        yield f"acs-raises-{name}", (f"{name}(accelerations={spec['acc']}, center_fractions={spec['cf']}, mode={spec['mode']}) shape {spec['shape']}: "
+                                    f"the ACS request raises {can['acs'].get('err')}: {can['acs'].get('msg')}"), "canonical"
+        return
+    for key, r in forms.items():
+        if key == "canonical" or not r["acs"].get("ok"):
+            continue
+        arg = key.split("=")[0]
+        if r["acs"].get("rows") != can["acs"].get("rows") or r["acs"].get("shape") != can["acs"].get("shape"):
+            n_can = sum(bin(v).count("1") for v in can["acs"]["rows"] or [])
+            n_got = sum(bin(v).count("1") for v in r["acs"]["rows"] or [])
+            yield f"forms/acs-depends-on-type-{name}/{arg}", (
+                f"{name}: the same configuration (accelerations={spec['acc']}, center_fractions={spec['cf']}, shape {spec['shape']}) with "
+                f"`{key}` gives another ACS than with Python numbers in lists: {n_got} cells (shape {r['acs'].get('shape')}) "
+                f"instead of {n_can} (shape {can['acs'].get('shape')})"), key
+        m = r.get("mask")
+        if m and m.get("ok") and m.get("rows") and r["acs"].get("rows") and len(m["rows"]) == len(r["acs"]["rows"]) \
+                and any(a & ~b for a, b in zip(r["acs"]["rows"], m["rows"])):
+            yield f"forms/acs-not-subset-{name}/{arg}", f"{name} with `{key}`: the ACS is not a subset of the mask made with the same arguments", key
+
+
+def forms_oracle(ctx: Ctx, seen: set, deep: bool):
+    rng = ctx.rng
+    per = ctx.budget(1, 6) * (2 if deep else 1)
+    for cls in FORM_CLASSES:
+        for _ in range(per):
+            spec = forms_spec(rng, cls)
+            if spec is None:
+                continue
+            res = hist_worker(BASES.get(cls, cls)).run(spec, 90.0)
+            if res.get("hang") or res.get("died"):
+                key = f"hang-{cls}" if res.get("hang") else f"generator-crashes/{cls}"
+                if key not in seen:
+                    seen.add(key)
+                    yield Violation(key, f"{cls}: the argument-form ladder " + ("hung" if res.get("hang") else "killed its process"),
+                                    {"op": "acs-forms", "spec": spec})
+                continue
+            forms = res.get("forms", {})
+            acc = sum(1 for k, r in forms.items() if k != "canonical" and r["acs"].get("ok"))
+            ctx.count(("forms", json.dumps(spec, sort_keys=True)), acc >= 3, bucket=f"oracle/forms/{cls}")
+            for k, r in forms.items():
+                b = f"oracle/forms/{k}/" + ("accepted" if r["acs"].get("ok") else "rejected:" + str(r["acs"].get("err")))
+                ctx.hist[b] = ctx.hist.get(b, 0) + 1
+            for key, what, form in check_forms(spec, res):
+                if key not in seen:
+                    seen.add(key)
+                    yield Violation(key, what, {"op": "acs-forms", "spec": spec, "form": form, "key": key,
+                                                "canonical_acs": forms["canonical"]["acs"], "form_acs": forms.get(form, {}).get("acs")})
+
+
 def oracle(ctx: Ctx, deep: bool = False):
     """The property stated directly on the implementation (independent of the model)."""
     from direct.common import subsample as S
@@ -797,6 +941,8 @@ def oracle(ctx: Ctx, deep: bool = False):
     yield from history_oracle(ctx, seen, deep)
     # (4) the transform that hands both masks to the pipeline, explicit mask shapes included
     yield from site_oracle(ctx, seen, deep)
+    # (5) every constructor / call argument in every form that can carry its value
+    yield from forms_oracle(ctx, seen, deep)
     yield from hang_violations(seen)
 
 
@@ -818,6 +964,10 @@ def replay(rep: dict) -> bool:
             if res.get("hang") or res.get("died") or any(True for _k in check_history(spec, res)):
                 return True
         return False
+    if op == "acs-forms":
+        spec = rep["spec"]
+        res = hist_worker(BASES.get(spec["gen"], spec["gen"])).run(spec, 90.0)
+        return bool(res.get("hang") or res.get("died") or any(True for _k in check_forms(spec, res)))
     if op == "acs-site":
         spec = rep["spec"]
         res = hist_worker(spec["gen"]).run(spec, 90.0)
